@@ -41,6 +41,25 @@ CLAIMED = {
         "module and comparing (n, err, delivered, writes-after-error) at every failure offset.",
    note="Lean kernel + propext/Quot.sound; model LlirModel/Writer.lean hand-written; fmt.Fprint* assumed to issue one Write per call; the io.Writer contract is a hypothesis.",
    technique="Lean 4 proof over a hand-written state-machine model + differential correspondence with the Go implementation", design="§4 C19"),
+ "C16": dict(
+   text="Lean proof (mutual structural recursion over the type language, no depth bound) that the model of Type.Equal is reflexive, symmetric and transitive, that identified "
+        "structs are compared by name only, that pointers equal only pointers, and that equal <-> structural identity GIVEN injectivity of the type printer (which "
+        "PointerType.Equal relies on; stated as an explicit hypothesis StrInj, validated on the implementation by an injectivity oracle). Tied by Equal/String correspondence "
+        "on generated pairs incl. real self-referential named structs, exhaustive depth<=2 universe in thorough, and print->parse oracles.",
+   note="Lean kernel + propext/Quot.sound; model LlirModel/Types.lean hand-written in the property's universe (names unique, only structs named); StrInj is assumed, not proved.",
+   technique="Lean 4 proof over a hand-written model + differential correspondence with the Go implementation", design="§4 C16"),
+ "C06": dict(
+   text="Lean proof that for every modelled kind and every operand-type tuple the parser-attached type equals the IR-computed type, and that both equal LLVMSpec.resultType "
+        "on well-typed tuples (scalable vectors included, after the fix commits). Model tied by per-kind correspondence of Type() through constructors and through parsed "
+        "one-instruction functions; the oracle demands IR == parser == spec.",
+   note="Lean kernel + propext/Quot.sound; resultIR/resultAsm hand-written; LLVMSpec is a trusted transcription of the LangRef; 25 representative kinds.",
+   technique="Lean 4 proof over a hand-written model + differential correspondence with the Go implementation", design="§4 C06"),
+ "C07": dict(
+   text="Lean model of gep.ResultType and of the three getIndex classifiers; proofs that parser, instruction constructor and constant-expression constructor agree on all "
+        "'tame' index lists (any length), plus kernel-checked NEGATIONS of the full statement at three witnesses (scalable base, vector zeroinitializer index, constant-"
+        "expression index in text) that are recorded as known findings. Partial: agreement with LLVMSpec.gepType is established by correspondence + oracle, not yet by theorem.",
+   note="Lean kernel + propext/Quot.sound; model LlirModel/Gep.lean hand-written; LLVMSpec.gepType trusted transcription; identified-struct environment fixed by the harness.",
+   technique="Lean 4 proof over a hand-written model + differential correspondence with the Go implementation", design="§4 C07"),
 }
 
 def main():
